@@ -90,6 +90,18 @@ def scenario_from(job, o):
         an, bn = tv("vc_wit_an"), tv("vc_wit_bn"); a = _trace_array(tr, "vc_wit_a", 8); b = _trace_array(tr, "vc_wit_b", 8)
         if an is not None and bn is not None and an <= 8 and bn <= 8 and a is not None and b is not None:
             return "kind cmp_name\nname_a %s\nname_b %s\n" % (a[:an].hex(), b[:bn].hex())
+    if job.entry == "h__write":
+        cap, used, ln, er, hb = tv("vc_wit_cap"), tv("vc_wit_used"), tv("vc_wit_len"), tv("vc_wit_err"), tv("vc_wit_flag")
+        if None not in (cap, used, ln, hb) and cap <= 4096 and ln <= 4096:
+            ev = {"BINSON_ERROR_NONE": 0, "BINSON_ERROR_RANGE": 1, "BINSON_ERROR_FORMAT": 2, "BINSON_ERROR_NULL": 5, "BINSON_ERROR_STATE": 6}
+            e = er if isinstance(er, int) else 0
+            for t in reversed(tr):
+                if t.get("lhs") == "vc_wit_err":
+                    for k, v in ev.items():
+                        if k in str(t.get("value")):
+                            e = v
+                    break
+            return "kind write_piece\ncapacity %d\nused %d\nlen %d\nerr %d\nhas_buffer %d\n" % (cap, used, ln, e, 1 if hb else 0)
     if job.entry == "h__int_pack_size":
         v = tv("vc_wit_i64"); fl = tv("vc_wit_flag")
         if v is not None and fl is not None:
